@@ -27,11 +27,15 @@ language is finite, the generator is exhausted after finitely many iterations (a
 that every iteration lowers), hence its complete output *is* the sorted filter
 (`C14_successors_total`, `C14_predecessors_total`).
 
-Domain (DESIGN.md §7 C14): start strings over the alphabet (a foreign symbol makes the real
-code raise `KeyError`: finding F13), a non-empty alphabet (`IndexError`: F14), an injective key.
+Domain of the positive theorems (`Dom`): start strings over the alphabet, a non-empty alphabet,
+an injective key.  The first two restrictions cut into the literal statement ("not even
+readable … handled like any other", "every DFA"): there the code fails, which is proved on the
+model as `C14_foreign_start_raises` (`KeyError`, open finding F13) and `C14_empty_alphabet`
+(`IndexError`, open finding F14) at the end of this file.
 -/
 import AutomataVerif.Proofs.Succ
 import AutomataVerif.Proofs.SuccTerm
+import AutomataVerif.Proofs.SuccForeign
 import AutomataVerif.Props.C13
 
 namespace AV.Props.C14
@@ -304,38 +308,40 @@ theorem C14_predecessors_exhausted (d : AV.DFA σ α) (key : α → Int) (input 
   · exact h'
   · rw [hfin] at h'; cases h'
 
-/-- `predecessors(w0, …)` is `successors(w0, …, reverse=True)`. -/
-theorem C14_predecessors_wrapper (d : AV.DFA σ α) (key : α → Int) (w0 : List α) (o : SuccOpts)
-    (fuel : Nat) :
-    d.predecessors key w0 o fuel = d.successors key (some w0) { o with reverse := true } fuel := rfl
+/-- `predecessors(input, …)` is `successors(input, …, reverse=True)` — also for `input = None`
+(all words in decreasing order), which the wrapper passes through unchanged. -/
+theorem C14_predecessors_wrapper (d : AV.DFA σ α) (key : α → Int) (input : Option (List α))
+    (o : SuccOpts) (fuel : Nat) :
+    d.predecessors key input o fuel = d.successors key input { o with reverse := true } fuel := rfl
 
 /-- **predecessor()**: for a finite language it never raises and returns the greatest accepted
 word inside the window that comes before the start string (or equals it when not strict), or
-`None`; for an infinite language it raises `InfiniteLanguageException`. -/
-theorem C14_predecessor (d : AV.DFA σ α) (key : α → Int) (w0 : List α)
-    (h : Dom d key (some w0)) (o : SuccOpts) (fuel : Nat) :
-    ((Lang d).Infinite → d.predecessor key w0 o fuel = .raised (.lib .infiniteLanguageException)) ∧
+`None`; for an infinite language it raises `InfiniteLanguageException`.  (`input = None`: the
+greatest word of the window set.) -/
+theorem C14_predecessor (d : AV.DFA σ α) (key : α → Int) (input : Option (List α))
+    (h : Dom d key input) (o : SuccOpts) (fuel : Nat) :
+    ((Lang d).Infinite → d.predecessor key input o fuel = .raised (.lib .infiniteLanguageException)) ∧
     ((Lang d).Finite →
-      match d.predecessor key w0 o fuel with
-      | .word w => (w ∈ Window d o ∧ Before key o.strict (some w0) w) ∧
-          ∀ w' ∈ Window d o, Before key o.strict (some w0) w' → w' = w ∨ lexLt key w' w
-      | .none => ∀ w ∈ Window d o, ¬ Before key o.strict (some w0) w
+      match d.predecessor key input o fuel with
+      | .word w => (w ∈ Window d o ∧ Before key o.strict input w) ∧
+          ∀ w' ∈ Window d o, Before key o.strict input w' → w' = w ∨ lexLt key w' w
+      | .none => ∀ w ∈ Window d o, ¬ Before key o.strict input w
       | .outOfFuel => True
       | .raised _ => False) := by
   have ho : ({ o with reverse := true } : SuccOpts).reverse = true := rfl
   constructor
   · intro hinf
     unfold DFA.predecessor DFA.predecessors
-    rw [C14_predecessors_infinite d key (some w0) h { o with reverse := true } ho fuel hinf]
+    rw [C14_predecessors_infinite d key input h { o with reverse := true } ho fuel hinf]
     rfl
   · intro hfinite
     obtain ⟨h1, h2, h3, h4⟩ :=
-      C14_predecessors d key (some w0) h { o with reverse := true } ho fuel hfinite
+      C14_predecessors d key input h { o with reverse := true } ho fuel hfinite
     have hwin : Window d { o with reverse := true } = Window d o := rfl
     rw [hwin] at h3 h4
     simp only at h3 h4
     unfold DFA.predecessor DFA.predecessors firstOf
-    generalize d.successors key (some w0) { o with reverse := true } fuel = r at h1 h2 h3 h4
+    generalize d.successors key input { o with reverse := true } fuel = r at h1 h2 h3 h4
     obtain ⟨ys, st⟩ := r
     simp only at h1 h2 h3 h4 ⊢
     cases ys with
@@ -490,78 +496,156 @@ theorem C14_successor_total (d : AV.DFA σ α) (key : α → Int) (input : Optio
 
 /-- `predecessor()` of a finite language terminates and returns the greatest word of the
 filtered window set, or `None` iff that set is empty. -/
-theorem C14_predecessor_total (d : AV.DFA σ α) (key : α → Int) (w0 : List α)
-    (h : Dom d key (some w0)) (o : SuccOpts) (hfinite : (Lang d).Finite) :
+theorem C14_predecessor_total (d : AV.DFA σ α) (key : α → Int) (input : Option (List α))
+    (h : Dom d key input) (o : SuccOpts) (hfinite : (Lang d).Finite) :
     ∃ fuel,
-      match d.predecessor key w0 o fuel with
-      | .word w => (w ∈ Window d o ∧ Before key o.strict (some w0) w) ∧
-          ∀ w' ∈ Window d o, Before key o.strict (some w0) w' → w' = w ∨ lexLt key w' w
-      | .none => ∀ w ∈ Window d o, ¬ Before key o.strict (some w0) w
+      match d.predecessor key input o fuel with
+      | .word w => (w ∈ Window d o ∧ Before key o.strict input w) ∧
+          ∀ w' ∈ Window d o, Before key o.strict input w' → w' = w ∨ lexLt key w' w
+      | .none => ∀ w ∈ Window d o, ¬ Before key o.strict input w
       | _ => False := by
-  obtain ⟨fuel, hfin⟩ := C14_termination d key (some w0) h { o with reverse := true }
+  obtain ⟨fuel, hfin⟩ := C14_termination d key input h { o with reverse := true }
     (Or.inr hfinite) (fun _ => hfinite)
   refine ⟨fuel, ?_⟩
-  have hs := (C14_predecessor d key w0 h o fuel).2 hfinite
-  have hne : d.predecessor key w0 o fuel ≠ .outOfFuel := by
+  have hs := (C14_predecessor d key input h o fuel).2 hfinite
+  have hne : d.predecessor key input o fuel ≠ .outOfFuel := by
     unfold DFA.predecessor DFA.predecessors firstOf
-    generalize d.successors key (some w0) { o with reverse := true } fuel = r at hfin
+    generalize d.successors key input { o with reverse := true } fuel = r at hfin
     obtain ⟨ys, st⟩ := r
     simp only at hfin
     subst hfin
     cases ys <;> simp
   revert hs hne
-  cases d.predecessor key w0 o fuel <;> simp
+  cases d.predecessor key input o fuel <;> simp
+
+/-- Two lists strictly sorted by the same strict order with the same members are equal. -/
+theorem sorted_unique {β : Type} (R : β → β → Prop) (hirr : ∀ a, ¬ R a a)
+    (htr : ∀ a b c, R a b → R b c → R a c) :
+    ∀ (l1 l2 : List β), l1.Pairwise R → l2.Pairwise R → (∀ w, w ∈ l1 ↔ w ∈ l2) → l1 = l2 := by
+  intro l1
+  induction l1 with
+  | nil =>
+    intro l2 _ _ hm
+    cases l2 with
+    | nil => rfl
+    | cons b t => exact absurd ((hm b).mpr List.mem_cons_self) (by simp)
+  | cons a t ih =>
+    intro l2 p1 p2 hm
+    cases l2 with
+    | nil => exact absurd ((hm a).mp List.mem_cons_self) (by simp)
+    | cons b t2 =>
+      rw [List.pairwise_cons] at p1 p2
+      have hab : a = b := by
+        rcases List.mem_cons.mp ((hm a).mp List.mem_cons_self) with e | e
+        · exact e
+        · rcases List.mem_cons.mp ((hm b).mpr List.mem_cons_self) with e' | e'
+          · exact e'.symm
+          · exact absurd (htr a b a (p1.1 b e') (p2.1 a e)) (hirr a)
+      subst hab
+      congr 1
+      apply ih t2 p1.2 p2.2
+      intro w
+      constructor
+      · intro hw
+        rcases List.mem_cons.mp ((hm w).mp (List.mem_cons_of_mem _ hw)) with e | e
+        · subst e; exact absurd (p1.1 w hw) (hirr w)
+        · exact e
+      · intro hw
+        rcases List.mem_cons.mp ((hm w).mpr (List.mem_cons_of_mem _ hw)) with e | e
+        · subst e; exact absurd (p2.1 w hw) (hirr w)
+        · exact e
 
 /-- The output does not depend on the fuel once the generator is exhausted: more iterations
-change nothing (so "the" output of the generator is well defined). -/
+change nothing (so "the" output of the generator is well defined) — in both directions
+(the reverse direction on a finite language; on an infinite one nothing is ever yielded). -/
 theorem C14_output_unique (d : AV.DFA σ α) (key : α → Int) (input : Option (List α))
-    (h : Dom d key input) (o : SuccOpts) (ho : o.reverse = false) (f1 f2 : Nat)
+    (h : Dom d key input) (o : SuccOpts) (hrev : o.reverse = true → (Lang d).Finite) (f1 f2 : Nat)
     (h1 : (d.successors key input o f1).2 = .finished)
     (h2 : (d.successors key input o f2).2 = .finished) :
     (d.successors key input o f1).1 = (d.successors key input o f2).1 := by
-  obtain ⟨s1, m1⟩ := C14_successors_exhausted d key input h o ho f1 h1
-  obtain ⟨s2, m2⟩ := C14_successors_exhausted d key input h o ho f2 h2
   have hirr : ∀ a : List α, ¬ lexLt key a a := fun a => lexLt_irrefl key a
   have htr : ∀ a b c : List α, lexLt key a b → lexLt key b c → lexLt key a c := by
     intro a b c hab hbc
     rw [lexLt_eq_preLt] at *
     exact preLt_trans key hab hbc
-  -- two strictly sorted lists with the same members are equal
-  have key_lemma : ∀ (l1 l2 : List (List α)), l1.Pairwise (lexLt key) → l2.Pairwise (lexLt key) →
-      (∀ w, w ∈ l1 ↔ w ∈ l2) → l1 = l2 := by
-    intro l1
-    induction l1 with
-    | nil =>
-      intro l2 _ _ hm
-      cases l2 with
+  cases ho : o.reverse with
+  | false =>
+    obtain ⟨s1, m1⟩ := C14_successors_exhausted d key input h o ho f1 h1
+    obtain ⟨s2, m2⟩ := C14_successors_exhausted d key input h o ho f2 h2
+    exact sorted_unique (lexLt key) hirr htr _ _ s1 s2 (fun w => by rw [m1, m2])
+  | true =>
+    obtain ⟨s1, m1⟩ := C14_predecessors_exhausted d key input h o ho f1 (hrev ho) h1
+    obtain ⟨s2, m2⟩ := C14_predecessors_exhausted d key input h o ho f2 (hrev ho) h2
+    exact sorted_unique (fun u v => lexLt key v u) hirr (fun a b c hab hbc => htr c b a hbc hab)
+      _ _ s1 s2 (fun w => by rw [m1, m2])
+
+/-! ## the two failure modes inside the literal domain (open findings F13, F14)
+
+The English statement says start strings "not even readable … are handled like any other" and
+quantifies over all valid DFAs.  The code does not live up to that for the two input classes
+excluded by `Dom.inputOver` and `Dom.symsNe`; the theorems below prove the failures on the
+model (the correspondence run reproduces them on the real code on every run and reports them
+under the finding keys `C14:start-string-with-foreign-symbol` and `C14:empty-alphabet`). -/
+
+/-- **F13 (open finding)**: a start string containing a symbol outside the alphabet — a start
+string that is "not even readable" — makes `successors` / `predecessors` raise `KeyError`
+instead of enumerating the words after (before) it: for every valid DFA over a non-empty
+alphabet, every key, window and strictness, in the forward direction and (for a finite
+language) in the reverse direction, after finitely many loop iterations the run ends with
+`KeyError` and **nothing** has been yielded (however much fuel is given). -/
+theorem C14_foreign_start_raises (d : AV.DFA σ α) (key : α → Int) (w0 : List α) (o : SuccOpts)
+    (hv : d.validate = .ok ()) (hd : d.IsDict) (hnd : d.syms.Nodup) (hne : d.syms ≠ [])
+    (hx : ∃ x ∈ w0, x ∉ d.syms) (hrev : o.reverse = true → (Lang d).Finite) :
+    ∃ n, ∀ fuel, d.successors key (some w0) o (fuel + n) = ([], .raised (.py .keyError)) := by
+  have wf := (DFA.validate_eq_ok d).mp hv
+  obtain ⟨n, hn⟩ := SuccForeign.successorsCore_foreign wf hnd hne key hx o d.digraph
+  refine ⟨n, fun fuel => ?_⟩
+  unfold DFA.successors DFA.finiteGuard
+  cases ho : o.reverse with
+  | false => exact hn fuel
+  | true =>
+    obtain ⟨b, hb, hiff⟩ := C13_isfinite d hv hd
+    have : b = true := hiff.mpr (hrev ho)
+    subst this
+    simp only [hb]
+    exact hn fuel
+
+/-- … hence `successor()` raises `KeyError` on such a start string (where the property asks for
+the least word after it, or `None`). -/
+theorem C14_foreign_start_successor_raises (d : AV.DFA σ α) (key : α → Int) (w0 : List α)
+    (o : SuccOpts) (hv : d.validate = .ok ()) (hd : d.IsDict) (hnd : d.syms.Nodup) (hne : d.syms ≠ [])
+    (hx : ∃ x ∈ w0, x ∉ d.syms) :
+    ∃ n, ∀ fuel, d.successor key (some w0) o (fuel + n) = .raised (.py .keyError) := by
+  obtain ⟨n, hn⟩ := C14_foreign_start_raises d key w0 { o with reverse := false } hv hd hnd hne hx
+    (fun hr => by cases hr)
+  exact ⟨n, fun fuel => by unfold DFA.successor; rw [hn fuel]; rfl⟩
+
+/-- **F14 (open finding)**: on a valid DFA with an empty alphabet (language `{ε}` or `∅`) every
+call — any start string incl. `None`, both directions, any window — raises `IndexError`
+(`sorted_symbols[-1]`) at the first `next()`, where the property asks for the words of the
+window set (at most the empty word). -/
+theorem C14_empty_alphabet (d : AV.DFA σ α) (key : α → Int) (input : Option (List α)) (o : SuccOpts)
+    (hv : d.validate = .ok ()) (hd : d.IsDict) (hs : d.syms = []) (fuel : Nat) :
+    d.successors key input o fuel = ([], .raised (.py .indexError)) := by
+  have wf := (DFA.validate_eq_ok d).mp hv
+  unfold DFA.successors DFA.finiteGuard
+  cases ho : o.reverse with
+  | false => exact SuccForeign.successorsCore_empty_alphabet hs key input o d.digraph fuel
+  | true =>
+    -- the language is a subset of {ε}, hence finite, hence `isfinite()` lets the call through
+    have hfin : (Lang d).Finite := by
+      apply Set.Finite.subset (Set.finite_singleton ([] : List α))
+      intro w hw
+      have hover := accepts_over wf hw
+      rw [hs] at hover
+      cases w with
       | nil => rfl
-      | cons b t => exact absurd ((hm b).mpr List.mem_cons_self) (by simp)
-    | cons a t ih =>
-      intro l2 p1 p2 hm
-      cases l2 with
-      | nil => exact absurd ((hm a).mp List.mem_cons_self) (by simp)
-      | cons b t2 =>
-        rw [List.pairwise_cons] at p1 p2
-        have hab : a = b := by
-          rcases List.mem_cons.mp ((hm a).mp List.mem_cons_self) with e | e
-          · exact e
-          · rcases List.mem_cons.mp ((hm b).mpr List.mem_cons_self) with e' | e'
-            · exact e'.symm
-            · exact absurd (htr a b a (p1.1 b e') (p2.1 a e)) (hirr a)
-        subst hab
-        congr 1
-        apply ih t2 p1.2 p2.2
-        intro w
-        constructor
-        · intro hw
-          rcases List.mem_cons.mp ((hm w).mp (List.mem_cons_of_mem _ hw)) with e | e
-          · subst e; exact absurd (p1.1 w hw) (hirr w)
-          · exact e
-        · intro hw
-          rcases List.mem_cons.mp ((hm w).mpr (List.mem_cons_of_mem _ hw)) with e | e
-          · subst e; exact absurd (p2.1 w hw) (hirr w)
-          · exact e
-  exact key_lemma _ _ s1 s2 (fun w => by rw [m1, m2])
+      | cons x t => exact absurd (hover x List.mem_cons_self) (by simp)
+    obtain ⟨b, hb, hiff⟩ := C13_isfinite d hv hd
+    have : b = true := hiff.mpr hfin
+    subst this
+    simp only [hb]
+    exact SuccForeign.successorsCore_empty_alphabet hs key input o d.digraph fuel
 
 /-! ## non-vacuity and in-Lean tests on concrete DFAs -/
 
@@ -585,15 +669,40 @@ example : exF.successors (fun a => -a) (some [0, 0, 1]) {} 100 = ([], .finished)
 example : exF.successors (fun a => -a) (some [1, 1, 1]) {} 100 = ([[1, 0], [0], [0, 1]], .finished) := by
   decide
 /-- test: predecessors in decreasing order, the empty word last (fix 322a5c4). -/
-example : exF.predecessors id [1, 0] { strict := true } 100 = ([[1], [0, 1], [0], []], .finished) := by
+example : exF.predecessors id (some [1, 0]) { strict := true } 100 = ([[1], [0, 1], [0], []], .finished) := by
   decide
-example : exF.predecessor id [] { strict := false } 100 = .word [] := by decide
+example : exF.predecessor id (some []) { strict := false } 100 = .word [] := by decide
+/-- test: `predecessors(None)` = all words in decreasing order; `predecessor(None)` = the greatest. -/
+example : exF.predecessors id none {} 100 = ([[1, 1], [1, 0], [1], [0, 1], [0], []], .finished) := by
+  decide
+example : exF.predecessor id none { maxLen := some 1 } 100 = .word [1] := by decide
 /-- test: infinite language — forward with a max length, predecessors refused. -/
 example : exD.successors id (some [0, 1]) { maxLen := some 3 } 200 =
     ([[0, 1, 1], [1], [1, 1], [1, 1, 1]], .finished) := by decide
-example : exD.predecessors id [1] {} 10 = ([], .raised (.lib .infiniteLanguageException)) := by decide
+example : exD.predecessors id (some [1]) {} 10 = ([], .raised (.lib .infiniteLanguageException)) := by decide
 /-- outside the domain of the property (infinite language, no max length): the words after `00`
 in `0*1⁺` have no least element, the traversal descends forever — the model says so too. -/
 example : exD.successor id (some [0, 0]) {} 60 = .outOfFuel := by decide
+
+/-- `{ε}` over the empty alphabet. -/
+def exE : AV.DFA Nat Int :=
+  { states := [0], syms := [], trans := [(0, [])], init := 0, finals := [0], allowPartial := false }
+
+/-- F13 witnesses: the hypotheses of `C14_foreign_start_raises` are met by `exF` with the start
+string `0·7` (7 is not a symbol); the model run ends with `KeyError`, nothing yielded — forward,
+reverse, and with the foreign symbol in the middle. -/
+example : exF.validate = .ok () ∧ exF.syms.Nodup ∧ exF.syms ≠ [] ∧ (∃ x ∈ [0, 7], x ∉ exF.syms) := by
+  decide
+example : exF.successors id (some [0, 7]) {} 100 = ([], .raised (.py .keyError)) := by decide
+example : exF.successors id (some [0, 7]) { reverse := true, strict := false } 100 =
+    ([], .raised (.py .keyError)) := by decide
+example : exF.successors id (some [7, 1, 0]) { maxLen := some 1 } 100 = ([], .raised (.py .keyError)) := by
+  decide
+example : exF.successor id (some [7]) {} 100 = .raised (.py .keyError) := by decide
+/-- F14 witnesses. -/
+example : exE.validate = .ok () ∧ exE.syms = [] := by decide
+example : exE.successors id none {} 100 = ([], .raised (.py .indexError)) := by decide
+example : exE.successors id (some []) { reverse := true, strict := false } 100 =
+    ([], .raised (.py .indexError)) := by decide
 
 end AV.Props.C14
